@@ -1,5 +1,6 @@
 import Lean.Data.Json
 import Glom.Model.C06
+import Glom.Spec.C06
 import Glom.Model.C01
 import Glom.Generated.C06Facts
 /-
@@ -9,11 +10,23 @@ import Glom.Generated.C06Facts
   implementation reported; the Python-level observations (outcome equal to the fresh-interpreter
   outcome, inputs unchanged) are part of the property verdict.
 
-  case: {"ops":[ {"op":"from_text","text":t,"impl_path":[[op,arg|null]…],"impl_sizes":[nTrue,nFalse]}
+  case: {"classes":[{"name":n,"mro":[n…]}…],
+         "ops":[ {"op":"from_text","text":t,"impl_path":[[op,arg|null]…],"impl_sizes":[nTrue,nFalse]}
                | {"op":"fill","prefix":p,"n":k,"impl_sizes":[…]}
                | {"op":"set_star","v":b}
-               | {"op":"glom","same_as_fresh":b|null,"same_as_first":b,"inputs_unchanged":b,"impl_sizes":[…]}
-               | {"op":"register"} … ]}
+               | {"op":"glom","reg":r,"same_as_fresh":b|null,"same_as_first":b,"inputs_unchanged":b,
+                  "same_as_rebuilt":b,"same_as_fresh_registry":b,"spec_graph_unchanged":b,"scope_unchanged":b,
+                  "impl_lookups":[[type,op,tag]…],
+                  "vars":{"key":k,"base":[[n,v]…],"defaults":[[n,v]…],"ops":[["w",n,v]|["r",n]…],"impl_reads":[v|null…]},
+                  "impl_sizes":[…]}
+               | {"op":"register","reg":r,"cls":n,"kw":[[op,tag]…]}      (no "cls": an unrelated fresh class) … ]}
+
+  The handler lookups of a call on an instance of a generated class (`impl_lookups`: exact type of
+  the object, op, and the tag of the handler that ran, "default" for getattr / iter) are replayed
+  through the memo model of the registry the call used (`getHandler` over `TReg.compute`) and
+  checked against the uncached lookup; the reads of a spec holding `Vars(...)` are replayed
+  through the heap model (`evalVars`, one heap per spec object, kept across evaluations) and
+  checked against the value-level reference (`refVars`).
 -/
 namespace Glom.C06.Driver
 open Lean Glom.C06
@@ -40,8 +53,18 @@ def sizesOfJson (j : Json) : Except String (Nat × Nat) :=
   | .arr #[a, b] => do return (← a.getNat?, ← b.getNat?)
   | _ => throw "bad sizes"
 
+def pairsOfJson (j : Json) : List (String × String) :=
+  match j with
+  | .arr a => a.toList.filterMap (fun e => match e with
+      | .arr #[.str k, .str v] => some (k, v)
+      | _ => none)
+  | _ => []
+
 structure Acc where
   pc : PathCache PathRepr := {}
+  regs : Nat → TReg := fun _ => {}
+  hcs : Nat → HCache Tag := fun _ => []
+  vheaps : List (String × VHeap String) := []     -- one heap per spec object holding a `Vars`
   star : Bool := true
   agree : Bool := true
   holds : Bool := true
@@ -54,6 +77,29 @@ def sizesOK (a : Acc) (j : Json) : Bool :=
     | .ok (t, f) => t == (a.pc.get true).length && f == (a.pc.get false).length
     | .error _ => false
   | .error _ => true
+
+/-- replay the handler lookups of one call: (agree with the memo model, equal to the uncached lookup, memo) -/
+def replayLookups (reg : TReg) : HCache Tag → List (String × String × String) → Bool × Bool × HCache Tag
+  | hc, [] => (true, true, hc)
+  | hc, (ty, op, tag) :: rest =>
+    let (h, hc') := getHandler reg.compute hc (ty, op)
+    let (ag, ok, hc'') := replayLookups reg hc' rest
+    (ag && h == some tag, ok && reg.compute (ty, op) == some tag, hc'')
+
+def vopsOfJson (j : Json) : List (VOp String) :=
+  match j with
+  | .arr a => a.toList.filterMap (fun e => match e with
+      | .arr #[.str "w", .str n, .str v] => some (.write n v)
+      | .arr #[.str "r", .str n] => some (.read n)
+      | _ => none)
+  | _ => []
+
+def readsOfJson (j : Json) : List (Option String) :=
+  match j with
+  | .arr a => a.toList.map (fun e => match e with
+      | .str v => some v
+      | _ => none)
+  | _ => []
 
 def stepOp (maxCache : Nat) (a : Acc) (j : Json) : Except String Acc := do
   let op ← j.getObjValAs? String "op"
@@ -83,7 +129,32 @@ def stepOp (maxCache : Nat) (a : Acc) (j : Json) : Except String Acc := do
     let first := (j.getObjValAs? Bool "same_as_first").toOption.getD true
     let unch := (j.getObjValAs? Bool "inputs_unchanged").toOption.getD true
     let rebuilt := (j.getObjValAs? Bool "same_as_rebuilt").toOption.getD true
-    let ok := fresh && first && unch && rebuilt
+    let freshReg := (j.getObjValAs? Bool "same_as_fresh_registry").toOption.getD true
+    let specUnch := (j.getObjValAs? Bool "spec_graph_unchanged").toOption.getD true
+    let scopeUnch := (j.getObjValAs? Bool "scope_unchanged").toOption.getD true
+    -- handler lookups through the memo model of the registry this call used
+    let rg := (j.getObjValAs? Nat "reg").toOption.getD 0
+    let lookups : List (String × String × String) := match j.getObjVal? "impl_lookups" with
+      | .ok (.arr ls) => ls.toList.filterMap (fun e => match e with
+          | .arr #[.str ty, .str op, .str tag] => some (ty, op, tag)
+          | _ => none)
+      | _ => []
+    let (lkAgree, lkOk, hc') := replayLookups (a.regs rg) (a.hcs rg) lookups
+    let a := { a with hcs := setAt a.hcs rg hc', agree := a.agree && lkAgree }
+    -- a spec holding `Vars(...)`: its reads through the heap model / the value-level reference
+    let (a, varsOk) := match j.getObjVal? "vars" with
+      | .ok v =>
+        let key := (v.getObjValAs? String "key").toOption.getD ""
+        let base := pairsOfJson ((v.getObjVal? "base").toOption.getD .null)
+        let defaults := pairsOfJson ((v.getObjVal? "defaults").toOption.getD .null)
+        let ops := vopsOfJson ((v.getObjVal? "ops").toOption.getD .null)
+        let impl := readsOfJson ((v.getObjVal? "impl_reads").toOption.getD .null)
+        let heap := (assocGet a.vheaps key).getD [base]
+        let (heap', reads) := evalVars heap 0 defaults ops
+        ({ a with vheaps := (key, heap') :: a.vheaps.filter (·.1 != key), agree := a.agree && reads == impl },
+         impl == refVars base defaults ops)
+      | .error _ => (a, true)
+    let ok := fresh && first && unch && rebuilt && freshReg && specUnch && scopeUnch && lkOk && varsOk
     -- keep the model's cache in step with the texts this call parsed (observed as new cache keys)
     let newKeys : List (Bool × String) := match j.getObjVal? "impl_new_keys" with
       | .ok (.arr ks) => ks.toList.filterMap (fun e => match e with
@@ -95,18 +166,35 @@ def stepOp (maxCache : Nat) (a : Acc) (j : Json) : Except String Acc := do
     let a := { a with agree := a.agree && sizesOK a j }
     let why := if !ok && a.why.isEmpty then
         (if !unch then s!"target/spec/scope changed at op {a.nOps}"
+         else if !specUnch then s!"an object of the spec's object graph (or a mapping handed to it) changed by being evaluated (op {a.nOps})"
+         else if !scopeUnch then s!"the caller's scope mapping changed (op {a.nOps})"
+         else if !varsOk then s!"the reads of a spec holding Vars(...) differ from those of a fresh variable holder (op {a.nOps})"
+         else if !lkOk then s!"a handler differs from the uncached lookup under the registrations in force (op {a.nOps})"
+         else if !freshReg then s!"outcome differs from the same call in a freshly built registry with the same registrations (op {a.nOps})"
          else if !rebuilt then s!"outcome differs from the same call on freshly built spec/target objects (op {a.nOps})"
          else if !first then s!"outcome differs from the first time this call was made (op {a.nOps})"
          else s!"outcome differs from the same call in a fresh interpreter (op {a.nOps})") else a.why
     return { a with holds := a.holds && ok, why := why }
-  | "register" => return a
+  | "register" =>
+    let rg := (j.getObjValAs? Nat "reg").toOption.getD 0
+    let cls := (j.getObjValAs? String "cls").toOption.getD "<unrelated>"
+    let kw := pairsOfJson ((j.getObjVal? "kw").toOption.getD .null)
+    -- `register`: new registrations, the memo of this registry is reset
+    return { a with regs := setAt a.regs rg ((a.regs rg).register cls kw), hcs := setAt a.hcs rg [] }
   | _ => throw s!"unknown op {op}"
 
 def run (j : Json) : Except String Json := do
   let ops ← (match j.getObjVal? "ops" with
     | .ok (.arr a) => pure a.toList
     | _ => throw "ops missing")
-  let a ← ops.foldlM (stepOp Generated.maxCache) {}
+  let mro : List (String × List String) := match j.getObjVal? "classes" with
+    | .ok (.arr cs) => cs.toList.filterMap (fun c =>
+        match c.getObjValAs? String "name", c.getObjVal? "mro" with
+        | .ok n, .ok (.arr m) => some (n, m.toList.filterMap (fun e => match e with | .str s => some s | _ => none))
+        | _, _ => none)
+    | _ => []
+  let reg0 : TReg := { mro := mro }
+  let a ← ops.foldlM (stepOp Generated.maxCache) { regs := fun _ => reg0 }
   return Json.mkObj [("agree", a.agree), ("holds", a.holds), ("why", a.why),
     ("model", Json.mkObj [("sizes", Json.arr #[toJson (a.pc.get true).length, toJson (a.pc.get false).length]),
                           ("max_cache", toJson Generated.maxCache)]),
